@@ -45,8 +45,11 @@ def opt(s, n=2):
 
 @st.composite
 def value10(draw, dtype, first):
+    # a Value element may be empty and still carry the unit / type / file name of the Property
+    empty = draw(st.integers(0, 7)) == 0
     return {
-        "text": draw(VALUE_TEXT[dtype]),
+        "text": "" if empty else draw(VALUE_TEXT[dtype]),
+        "compact": draw(st.booleans()),
         "type": dtype if (first or draw(st.booleans())) else None,
         "type_key": draw(st.sampled_from(["type", "dtype"])),
         "unit": draw(opt(st.sampled_from(["mV", "s", "kg"]), 2)),
@@ -118,6 +121,9 @@ def emit_xml(doc):
         for tag, text in v["extra"]:
             parts.append(_x(tag, text, ind + "  "))
         parts.append("%s</value>" % ind)
+        if v.get("compact"):
+            # no whitespace between the tags: the element text of an empty Value is None
+            return ind + "".join(x.strip() for x in parts)
         return "\n".join(parts)
 
     def prop(p, ind):
@@ -167,6 +173,8 @@ def emit_xml(doc):
 
 def native(text, dtype):
     """Value-level scalars may be native in the dictionary forms."""
+    if not text.strip():
+        return text
     try:
         if dtype == "int":
             return int(text)
